@@ -80,11 +80,48 @@ def c01_cases():
     for tag, h, mk in shapes:
         for kind in sorted(ib.ODD_KINDS):
             out.append((f"odd-argument-{kind}-{tag}", c01.make_case(h, mk(kind + "1"))))
+    # -- a TWIN chain (same module, qualnames, layout; helper objects EQUAL to the real chain's) is defined first
+    for tag, api, extra in (("attr-s", "attr.s", {}), ("frozen", "frozen", {}), ("make-class", "make_class", {}),
+                            ("define-dict", "define", {"slots": False}), ("these", "these", {})):
+        fields = [F("x", default="value"), F("y", default="factory"), F("z", default="value", converter="plain"),
+                  F("w", init=False, default="factory_self", converter="c01")]
+        h = H([C("C0", api, fields, **extra)])
+        h["classes"][0]["eq_twin"] = True
+        out.append((f"equal-twin-first-{tag}-defaults", c01.make_case(h, call())))
+        out.append((f"equal-twin-first-{tag}-passed", c01.make_case(h, call("t1", "t2", "t3"))))
+        h2 = H([C("C0", api, [F("x", default="value")], **extra), C("C1", api, [F("y", default="factory", converter="plain")], **extra)])
+        h2["classes"][0]["eq_twin"] = True
+        out.append((f"equal-twin-first-{tag}-inherited", c01.make_case(h2, call())))
+    # -- multiple inheritance: a plain mixin before / after a frozen parent; the class itself is not declared frozen
+    for tag, api, extra in (("attr-s", "attr.s", {}), ("define-dict", "define", {"slots": False}), ("make-class", "make_class", {}),
+                            ("these", "these", {}), ("define-slots", "define", {})):
+        for pos in ("before", "after"):
+            root = C("C0", api if api != "define" else "define", [F("x")], frozen=True, **extra)
+            leaf = C("C1", api, [F("y", default="factory")], side_base={"pos": pos, "slots": False}, **extra)
+            h = H([root, leaf])
+            out.append((f"mixin-{pos}-frozen-parent-{tag}", c01.make_case(h, call("t1"))))
+            out.append((f"mixin-{pos}-frozen-parent-{tag}-kw", c01.make_case(h, call(x="t1", y="t2"))))
     return out
 
 
 def c02_cases():
     out = []
+    # -- converter chains mixing plain callables and Converter instances: every member once, left to right, each with
+    #    what IT asked for; a member that raises ends the construction
+    for chain in (["c10", "plain", "plain"], ["plain", "plain", "c10"], ["c11", "plain"], ["plain", "c01", "plain"],
+                  ["plain", "plain"], ["c10", "c01"], ["plain", "c00", "plain"]):
+        for style in ("list", "pipe"):
+            tag = "-".join(chain) + "-" + style
+            h = H([C("C0", "attr.s", [F("x", converter="pipe", pipe=chain, pipe_style=style, validators=1, conv_type=True),
+                                      F("y", default="factory", converter="pipe", pipe=list(reversed(chain)), pipe_style=style)],
+                     post=True)])
+            out.append((f"converter-chain-{tag}", c02.make_case(h, call("t1"), None, True)))
+            for i in range(len(chain)):
+                out.append((f"converter-chain-{tag}-member-{i}-raises", c02.make_case(h, call("t1"), ["conv", "x", i], True)))
+            out.append((f"converter-chain-{tag}-second-field-raises", c02.make_case(h, call("t1"), ["conv", "y", 1], True)))
+    hd = H([C("C0", "define", [F("x", converter="pipe", pipe=["c10", "plain", "plain"], pipe_style="list", type="int", annotated=True)],
+              pre="args")])
+    out.append(("converter-chain-define-annotated", c02.make_case(hd, call(x="t1"), None, True)))
     # -- auto_exc classes whose ancestry does not pass through Exception: args = the init fields' stored values
     for root in ("BaseException", "KeyboardInterrupt", "SystemExit", "GeneratorExit", "ValueError"):
         for tag, api, extra in (("define", "define", {}), ("frozen", "frozen", {}), ("attr-s-slots", "attr.s", {"auto_exc": True, "slots": True}),
